@@ -15,7 +15,7 @@ import RedkaModel.Props.C16
 #print axioms Redka.Props.C16.keyrows_sorted
 #print axioms Redka.Props.C16.setscan_is_elem_ordered_instance
 #print axioms Redka.Props.C16.hashscan_is_field_ordered_instance
-#print axioms Redka.Props.C16.zscan_is_score_ordered_instance
+#print axioms Redka.Props.C16.zscan_is_pattern_ordered_instance
 #print axioms Redka.Props.C16.scanners_are_instances
 #print axioms Redka.Props.C16.keyscanner_complete
 #print axioms Redka.Props.C16.keyscanner_complete_mem
@@ -24,4 +24,5 @@ import RedkaModel.Props.C16
 #print axioms Redka.Props.C16.scan_skips_deviates
 #print axioms Redka.Props.C16.setscanner_skips_deviates
 #print axioms Redka.Props.C16.zscanner_skips_deviates
+#print axioms Redka.Props.C16.zscanner_prefix_skips_deviates
 #print axioms Redka.Props.C16.scan_complete_iff_no_inversion
